@@ -84,7 +84,12 @@ func vfSubMultiset(got, want []vfkit.RR) bool {
 func TestVfC09PackLimit(t *testing.T) {
 	st := vfkit.Stats("TestVfC09PackLimit", "responses (0-1 question, 0-400 records of mixed sizes, optional OPT <= 200 octets of RDATA at any additional position, TC preset on/off) x limit in {0} u 512..65535 biased to Len()+-40, 512, 513, 1232, 4096, 65535 and < 512 x compression; non-trivial = a record was omitted or Len() within 40 octets of the limit")
 	defer vfkit.Flush()
-	rapid.Check(t, func(t *rapid.T) {
+	rapid.Check(t, vfC09Prop(st))
+}
+
+// vfC09Prop is the property itself; the rapid test and the native fuzz target (rapid.MakeFuzz) share it.
+func vfC09Prop(st *vfkit.Collector) func(t *rapid.T) {
+	return func(t *rapid.T) {
 		M := vfGenC09Msg(t)
 		W, _ := vfkit.Encode(M, vfkit.EncOpts{})
 		if len(W) > 65535 {
@@ -206,5 +211,14 @@ func TestVfC09PackLimit(t *testing.T) {
 			return map[string]any{"len": L, "limit": limit, "compression": comp, "records": total, "omitted": omitted, "out_len": n}
 		})
 		_ = fmt.Sprint
-	})
+	}
+}
+
+// FuzzVfC09PackLimit drives the same property with Go's native coverage-guided fuzzing: the fuzzer mutates the bit stream
+// rapid draws from (thorough tier only; nothing is replayed in the quick tier apart from one seed input).
+func FuzzVfC09PackLimit(f *testing.F) {
+	st := vfkit.Stats("FuzzVfC09PackLimit", "the size-limit property of TestVfC09PackLimit driven by native coverage-guided fuzzing of rapid's draw stream (rapid.MakeFuzz); same oracle and non-triviality rule")
+	defer vfkit.Flush()
+	f.Add([]byte("vf seed input: any octets are a valid draw stream"))
+	f.Fuzz(rapid.MakeFuzz(vfC09Prop(st)))
 }
